@@ -65,8 +65,49 @@ def triple(x):
     return sp.expand(sum(x[0][i] * c[i] for i in range(3)))
 
 
+def orientation_order(rep, prog, rule="C12.volume-integrand"):
+    """check_face_normal_orientation decides 'inside-out' from the sign of the signed volume; that sign is the orientation of the
+    surface only if it is summed over faces whose winding has already been made mutually consistent by the flood fill."""
+    fn = prog.fn("cell::check_face_normal_orientation")
+    fi = prog.index(fn)
+    flips = [n for n in walk(fn["body"]) if n.get("k") == "CXXMemberCallExpr" and n.get("callee") == "face::swap_nodes"]
+    var = None
+    for f in flips:
+        for cond, pol in fi.guards(f):
+            c = strip(cond)
+            if c.get("k") == "BinaryOperator" and c.get("op") in ("<", ">") and strip(c["c"][0]).get("k") == "DeclRefExpr":
+                var = strip(c["c"][0])["ref"]
+    if var is None:
+        return None
+    accs = [n for n in walk(fn["body"]) if n.get("k") == "CompoundAssignOperator" and n.get("op") in ("+=", "-=") and strip(n["c"][0]).get("k") == "DeclRefExpr" and strip(n["c"][0])["ref"].get("did") == var["did"]]
+    winds = [n for n in walk(fn["body"]) if n.get("k") == "CXXMemberCallExpr" and n.get("callee") == "cell::check_face_winding_order"]
+    if not accs or not winds:
+        return var
+    last = 0
+    for w in winds:
+        top = w
+        for p_, slot, ch in fi.ancestors(w):
+            if p_.get("k") in ("WhileStmt", "ForStmt", "CXXForRangeStmt", "DoStmt"):
+                top = p_
+        last = max(last, max(fi.order[id(x)] for x in walk(top)))
+    early = [a for a in accs if fi.order[id(a)] < last]
+    if early:
+        rep.violation(rule, prog, fn, early[0], "signed volume summed before the windings are consistent",
+                      "check_face_normal_orientation adds the contribution of a face to '%s' (line %s) before the flood fill (check_face_winding_order, up to line %s) has made the winding of all faces mutually consistent: "
+                      "the sum mixes inward and outward wound triangles, its sign is not the orientation of the surface and changes with the position of the cell, so a correctly or wrongly wound input is flipped depending on where it lies"
+                      % (var["name"], early[0].get("l"), max(w.get("l", 0) for w in winds)))
+        return "violated"
+    rep.ok(rule, prog, fn, accs[0], "the signed volume is summed after the flood fill has made all windings consistent")
+    return var
+
+
 def volume(rep, prog):
+    ov = orientation_order(rep, prog)
     for qn, var in (("cell::compute_volume", "vol"), ("cell::check_face_normal_orientation", "signed_volume")):
+        if qn.endswith("orientation") and ov == "violated":
+            continue
+        if qn.endswith("orientation") and isinstance(ov, dict):
+            var = ov["name"]
         fn = prog.fn(qn)
         acc = [(t, n) for t, n in accumulations(fn) if t.split("#")[0] == var]
         if len(acc) != 1:
